@@ -18,6 +18,28 @@ static void churn(vc_rng *r){ /* unrelated objects come and go, dirtying the hea
   else if(k==2){ void *p=malloc(1000+vc_below(r,60000)); memset(p,vc_u32(r),1000); free(p); } }
 static const int pats[]={0x00,0xA5,0xFF,0x5A,0x01,0x80,-1,-1};
 
+/* ---------------------------------------------------------------- second stack
+ * Twin B's codec calls run on a helper thread whose stack is a separately mapped region, entered at a random depth and with
+ * a different residue each time: code that lets a stack address or stale stack bytes leak into its output (an element read
+ * past an on-stack array, an uninitialised local) behaves differently there than on the main thread's stack. */
+#include <pthread.h>
+#include <alloca.h>
+#include <sys/mman.h>
+typedef struct { void (*fn)(void*); void *arg; size_t shift; int pat; } alt_job;
+static pthread_t alt_th; static pthread_mutex_t alt_mu=PTHREAD_MUTEX_INITIALIZER; static pthread_cond_t alt_cv=PTHREAD_COND_INITIALIZER; static alt_job *alt_cur; static int alt_started; static long alt_calls;
+static void __attribute__((noinline)) alt_tramp(alt_job *j){ volatile unsigned char *p=(volatile unsigned char*)alloca(j->shift+16); memset((void*)p,j->pat,j->shift+16); __asm__ volatile(""::"r"(p):"memory"); j->fn(j->arg); }
+static void *alt_main(void *u){ (void)u; for(;;){ pthread_mutex_lock(&alt_mu); while(!alt_cur) pthread_cond_wait(&alt_cv,&alt_mu); alt_job *j=alt_cur; pthread_mutex_unlock(&alt_mu); alt_tramp(j); pthread_mutex_lock(&alt_mu); alt_cur=NULL; pthread_cond_broadcast(&alt_cv); pthread_mutex_unlock(&alt_mu); } return NULL; }
+static void alt_run(void (*fn)(void*),void *arg){
+  if(!alt_started){ pthread_attr_t at; pthread_attr_init(&at); size_t ssz=16u<<20; void *stk=mmap(NULL,ssz,PROT_READ|PROT_WRITE,MAP_PRIVATE|MAP_ANONYMOUS,-1,0); if(stk==MAP_FAILED){ fprintf(stderr,"alt stack mmap failed\n"); exit(3); } memset(stk,0x6B,ssz); pthread_attr_setstack(&at,stk,ssz); if(pthread_create(&alt_th,&at,alt_main,NULL)){ fprintf(stderr,"alt thread create failed\n"); exit(3); } alt_started=1; }
+  alt_job j; j.fn=fn; j.arg=arg; alt_calls++; j.shift=(size_t)((alt_calls*2654435761u)%(1u<<19))&~(size_t)15; j.pat=(int)((alt_calls*37+11)&0xFF);
+  pthread_mutex_lock(&alt_mu); alt_cur=&j; pthread_cond_broadcast(&alt_cv); while(alt_cur) pthread_cond_wait(&alt_cv,&alt_mu); pthread_mutex_unlock(&alt_mu); }
+typedef struct { OpusEncoder *e; int api; const void *pcm; int fs; unsigned char *out; int maxb; int ret; } altenc;
+static void altenc_fn(void *p){ altenc *a=(altenc*)p; a->ret=a->api?opus_encode(a->e,(const opus_int16*)a->pcm,a->fs,a->out,a->maxb):opus_encode_float(a->e,(const float*)a->pcm,a->fs,a->out,a->maxb); }
+static int enc_alt(OpusEncoder *e,int api,const void *pcm,int fs,unsigned char *out,int maxb){ altenc a; a.e=e; a.api=api; a.pcm=pcm; a.fs=fs; a.out=out; a.maxb=maxb; a.ret=0; alt_run(altenc_fn,&a); vc_count("calls_on_second_stack",1); return a.ret; }
+typedef struct { OpusDecoder *d; int api; const unsigned char *p; int len; void *out; int fsz; int fec; int ret; } altdec;
+static void altdec_fn(void *p){ altdec *a=(altdec*)p; a->ret=a->api?opus_decode(a->d,a->p,a->len,(opus_int16*)a->out,a->fsz,a->fec):opus_decode_float(a->d,a->p,a->len,(float*)a->out,a->fsz,a->fec); }
+static int dec_alt(OpusDecoder *d,int api,const unsigned char *p,int len,void *out,int fsz,int fec){ altdec a; a.d=d; a.api=api; a.p=p; a.len=len; a.out=out; a.fsz=fsz; a.fec=fec; a.ret=0; alt_run(altdec_fn,&a); vc_count("calls_on_second_stack",1); return a.ret; }
+
 #define MAXCTL 200
 /* ---------------------------------------------------------------- enc */
 static void mode_enc(void){
@@ -39,7 +61,7 @@ static void mode_enc(void){
     memset(pa,0x77,maxb); memset(pb,0x88,maxb);
     int la=api?opus_encode(X,s16,fs,pa,maxb):opus_encode_float(X,f,fs,pa,maxb);
     churn(&r); paint_stack(ppat); ppat=(ppat*7+3)&0xFF;
-    int lb=api?opus_encode(B,s16,fs,pb,maxb):opus_encode_float(B,f,fs,pb,maxb); vc_count("enc_pairs",1);
+    int lb=enc_alt(B,api,api?(const void*)s16:(const void*)f,fs,pb,maxb); vc_count("enc_pairs",1);
     opus_uint32 ra=0,rb=0; opus_encoder_ctl(X,OPUS_GET_FINAL_RANGE(&ra)); opus_encoder_ctl(B,OPUS_GET_FINAL_RANGE(&rb));
     if(ho<360) ho+=snprintf(hist+ho,sizeof hist-ho,"[f%d>%d] ",fidx,la);
     if(la!=lb||(la>0&&memcmp(pa,pb,la))||ra!=rb){ vc_viol(stage?"enc:clone-diverges":"enc:memory-dependent","frame %d (%s): twin in poisoned memory/painted stack gives len %d range %08x, other gives len %d range %08x (Fs=%d ch=%d app=%d sig=%s) hist=%s",k,stage?"after memcpy clone":"before clone",lb,rb,la,ra,Fs,ch,app,vs_names[sig],hist); goto out; }
@@ -51,7 +73,7 @@ static void mode_enc(void){
     if(opus_encoder_ctl(X,OPUS_RESET_STATE)!=OPUS_OK){ vc_viol("enc:reset-failed","OPUS_RESET_STATE failed"); free(F); goto out; }
     vc_siggen g2; vs_init(&g2,vc_below(&r,VS_NFINITE),Fs,ch,(float)(0.05+0.9*vc_unit(&r)),vc_next(&r)); int n2=vc_range(&r,6,30);
     for(int k=0;k<n2;k++){ if(vc_chance(&r,1,6)) fidx=vc_below(&r,9); int fs=vk_frame_samples(Fs,fidx); vs_fill(&g2,f,fs);
-      int la=opus_encode_float(X,f,fs,pa,1500); paint_stack(ppat^0x3C); int lb=opus_encode_float(F,f,fs,pb,1500); vc_count("enc_reset_pairs",1);
+      int la=opus_encode_float(X,f,fs,pa,1500); paint_stack(ppat^0x3C); int lb=enc_alt(F,0,f,fs,pb,1500); vc_count("enc_reset_pairs",1);
       opus_uint32 ra=0,rb=0; opus_encoder_ctl(X,OPUS_GET_FINAL_RANGE(&ra)); opus_encoder_ctl(F,OPUS_GET_FINAL_RANGE(&rb));
       if(getenv("C12_DEBUG")){ opus_int32 v1=-9,v2=-9,b1=0,b2=0; opus_encoder_ctl(X,11019,&v1); opus_encoder_ctl(F,11019,&v2); opus_encoder_ctl(X,OPUS_GET_BANDWIDTH(&b1)); opus_encoder_ctl(F,OPUS_GET_BANDWIDTH(&b2)); fprintf(stderr,"post-reset frame %d fs=%d: reset len %d toc %02x rng %08x voice_ratio %d bw %d | fresh len %d toc %02x rng %08x voice_ratio %d bw %d\n",k,fs,la,pa[0],ra,v1,b1,lb,pb[0],rb,v2,b2); }
       if(la!=lb||(la>0&&memcmp(pa,pb,la))||ra!=rb){ /* diagnostic: did a getter drift from what the user set? */
@@ -90,7 +112,7 @@ static void mode_dec(void){
         else { rc=opus_decoder_ctl(X,OPUS_SET_GAIN(40000)); opus_int32 v; opus_decoder_ctl(X,OPUS_GET_BANDWIDTH(&v)); opus_decoder_ctl(X,OPUS_GET_LAST_PACKET_DURATION(&v)); opus_decoder_ctl(X,OPUS_GET_PITCH(&v)); }
         vc_count(rc<0?"dec_refused_unrelated_calls":"dec_unrelated_calls_that_succeeded",1); }
       int api=vc_below(&r,2); int ra,rb; memset(oa,0,sizeof(float)*8); memset(ob,0,sizeof(float)*8);
-      if(api){ ra=opus_decode(X,p,len,sa,fsz,fec); churn(&r); paint_stack(ppat); rb=opus_decode(B,p,len,sb,fsz,fec); } else { ra=opus_decode_float(X,p,len,oa,fsz,fec); churn(&r); paint_stack(ppat); rb=opus_decode_float(B,p,len,ob,fsz,fec); }
+      if(api){ ra=opus_decode(X,p,len,sa,fsz,fec); churn(&r); paint_stack(ppat); rb=dec_alt(B,1,p,len,sb,fsz,fec); } else { ra=opus_decode_float(X,p,len,oa,fsz,fec); churn(&r); paint_stack(ppat); rb=dec_alt(B,0,p,len,ob,fsz,fec); }
       ppat=(ppat*5+1)&0xFF; vc_count(stage==2?"dec_reset_pairs":"dec_pairs",1); total++;
       opus_uint32 fa=0,fb=0; opus_decoder_ctl(X,OPUS_GET_FINAL_RANGE(&fa)); opus_decoder_ctl(B,OPUS_GET_FINAL_RANGE(&fb));
       int diff=(ra!=rb)||(ra>0&&fa!=fb)||(ra>0&&(api?memcmp(sa,sb,2*ra*ch):memcmp(oa,ob,4*ra*ch)));
